@@ -1,4 +1,5 @@
 """Seeded generator of driver-B histories (market-level schedules)."""
+import math
 import random
 from typing import Any, Dict, List
 
@@ -35,9 +36,19 @@ def gen_price(r: random.Random, tick: float, p0: float, side: str, spread_bias: 
     elif v < 0.22:
         px = p0 * r.choice([0.5, 0.8, 1.25, 2.0])  # far
     elif v < 0.26:
-        px = px + tick * r.choice([1e-9, -1e-9, 0.5, 0.999999])
+        # a hair off a grid point: fractions of a tick down to one unit in the last place
+        w_ = r.choice([1e-9, -1e-9, 0.5, 0.999999, 2.0 ** -40, -2.0 ** -40, 2.0 ** -31, -2.0 ** -31, 1e-12, -1e-12, "up", "down"])
+        if w_ == "up":
+            px = math.nextafter(px, math.inf)
+        elif w_ == "down":
+            px = math.nextafter(px, -math.inf)
+        else:
+            px = px + tick * w_
     elif v < 0.275:
         px = tick * r.choice([0.4, 0.75, 0.999, 1.5])  # below or just above one tick
+    elif v < 0.283:
+        # accepted with a warning only: a price of exactly zero, or a negative one
+        return float(r.choice([0.0, 0.0, -0.0, -tick, -1.5 * tick, -0.1 * p0]))
     if px <= 0:
         px = tick
     return float(px)
